@@ -35,6 +35,11 @@ STRUCTS = {
     "H": [[("L", S1), ("L", S1), ("L", S2)]],
     "I": [[]],
     "J": [[("L", S1), ("S", S1), ("L", S1)]],
+    # CUDA events: R = cudaEventRecord after the launches on that stream; W = cudaStreamWaitEvent on a stream for the
+    # record at item index k; Q = cudaEventSynchronize (host waits) for the record at item index k
+    "K": [[("L", S1), ("R", S1), ("W", S2, 1), ("L", S2)]],
+    "M": [[("L", S1), ("R", S1), ("Q", 1)]],
+    "N": [[("L", S1), ("R", S1), ("L", S1), ("W", S2, 1), ("L", S2)]],
 }
 QUICK = ["A", "B", "C", "D", "E", "I"]
 
@@ -61,7 +66,33 @@ def build(struct, step=True):
         if oi == 0 and step:
             P = host("ProfilerStep#3", "step", cat="user_annotation")
         for j, it in enumerate(items):
-            if it[0] == "L":
+            if it[0] == "R":
+                Rr = host("cudaEventRecord", f"o{oi}r{j}", corr=corr)
+                Rr["record"] = {"corr": corr, "stream": it[1], "after": [k for k in K if k["stream"] == it[1]]}
+                O["children"].append(Rr)
+                items_by_index = O.setdefault("items", {})
+                items_by_index[j] = Rr
+                corr += 1
+            elif it[0] in ("W", "Q"):
+                rec = O["items"][it[2] if it[0] == "W" else it[1]]["record"]
+                nm = "cudaStreamWaitEvent" if it[0] == "W" else "cudaEventSynchronize"
+                S = host(nm, f"o{oi}w{j}", corr=corr)
+                O["children"].append(S)
+                i = len(ev)
+                st = it[1] if it[0] == "W" else -1
+                ev.append(TG.kernel("Stream Wait Event" if it[0] == "W" else "Event Sync", f"$o{oi}y{j}_ts",
+                                    f"$o{oi}y{j}_dur", stream=st, corr=corr, cat="cuda_sync",
+                                    wait_on_stream=rec["stream"], wait_on_cuda_event_record_corr_id=rec["corr"]))
+                y = {"id": i, "ts": f"$o{oi}y{j}_ts", "dur": f"$o{oi}y{j}_dur", "kind": "sync", "stream": st, "call": S,
+                     "what": it, "waits": list(rec["after"][-1:]), "event": True}
+                S["syncev"] = y
+                if it[0] == "Q":
+                    S["sync"] = it
+                else:
+                    S["waitevent"] = {"stream": it[1], "src": list(rec["after"][-1:])}
+                Y.append(y)
+                corr += 1
+            elif it[0] == "L":
                 L = host("cudaLaunchKernel", f"o{oi}l{j}", corr=corr)
                 O["children"].append(L)
                 i = len(ev)
@@ -78,7 +109,7 @@ def build(struct, step=True):
                 S["sync"] = it
                 O["children"].append(S)
                 i = len(ev)
-                st = it[1] if it[0] == "S" else S1
+                st = it[1] if it[0] == "S" else -1
                 ev.append(TG.kernel("Stream Sync" if it[0] == "S" else "Context Sync", f"$o{oi}y{j}_ts", f"$o{oi}y{j}_dur",
                                     stream=st, corr=corr, cat="cuda_sync"))
                 y = {"id": i, "ts": f"$o{oi}y{j}_ts", "dur": f"$o{oi}y{j}_dur", "kind": "sync", "stream": st, "call": S,
@@ -128,6 +159,16 @@ def prepare(ctx, struct, step=True, pmode="free"):
     for y in Y:
         S = y["call"]
         ctx.assume(sand(y["ts"] >= S["ts"], y["end"] == S["end"], y["ts"] <= y["end"]))
+        if "waitevent" in S:
+            # cudaStreamWaitEvent returns at once; the kernels launched later on that stream wait on the device
+            for O in ops:
+                if S in O["children"]:
+                    later = [c for c in O["children"][O["children"].index(S) + 1:] if "kernel" in c
+                             and c["kernel"]["stream"] == S["waitevent"]["stream"]]
+                    for c in later:
+                        for k in S["waitevent"]["src"]:
+                            ctx.assume(k["end"] <= c["kernel"]["ts"])
+            continue
         for k in y["waits"]:
             ctx.assume(k["end"] <= S["end"])
     return events, H, K, Y, ops, P
